@@ -136,7 +136,7 @@ PROPS = {
         title='Hayson JSON conforms to the Project Haystack JSON encoding',
         verus=[('u_getters', [r'^parse_ref$', r'^parse_symbol$', r'^parse_uri$', r'^parse_coord$', r'^Dict::get_str$', r'^Dict::get_num$']),
                ('u_jenc', [r'::serialize$', r'^jv_']),
-               ('u_jdec', [r'^JsonValueDecoderVisitor::visit_map$', r'^lemma_members_by_membership$', r'^lemma_kind_by_membership$', r'^lemma_no_kind$',
+               ('u_jdec', [r'^JsonValueDecoderVisitor::visit_map$', r'^JsonValueDecoderVisitor::visit_seq$', r'^lemma_members_by_membership$', r'^lemma_kind_by_membership$', r'^lemma_no_kind$',
                            r'^lemma_perm_same_reading$', r'^lemma_object_members_in_any_order$'])],
         kani=[dict(harness='k_json_visit_numbers', klass='complete', schema='raw', family='json-visit', target='JsonValueDecoderVisitor::visit_{i8..u64,f64}'),
               dict(harness='k_json_visit_bool_null', klass='complete', schema=['bool'], family=None, target='JsonValueDecoderVisitor::visit_bool/visit_unit'),
@@ -154,7 +154,7 @@ PROPS = {
                     'serializer, member by member and in order, against a model of serde\'s data model (rule R20). '
                     'Reader side, objects (Verus, u_jdec): the real visit_map reads the members one by one into a map and remembers the text of _kind; what it '
                     'returns is the value denoted by that kind and that member map (hs_decode), and lemma_object_members_in_any_order shows that for an object '
-                    'with distinct member names every order of the members gives the same kind and the same map, hence the same value. '
+                    'with distinct member names every order of the members gives the same kind and the same map, hence the same value; visit_seq returns the list of all array elements in order. '
                     'Proof (Kani/CBMC) of the writer side for scalars: the serializer call trace of Marker, NA, Remove, Coord (all f64), '
                     'Symbol, Uri, Ref (with and without dis), XStr and Number (all f64, with and without unit) uses exactly the "_kind" '
                     'values and member names of the Hayson table (typed into the harness from the specification), in a map of the stated size. '
